@@ -170,7 +170,7 @@ ROUND8 = {
     "C15": " Round 8: measurements replaced through the setters between cost evaluations (defect repaired, 39eaba5).",
     "C16": " Round 8: integer-typed prior specifications.",
     "C17": " Round 7: tracked lineages whose mother kept one daughter.",
-    "C18": " Round 8: the module-level functions across parameter changes of one model.",
+    "C18": " Round 8: the module-level functions across parameter changes of one model; theorem stencil_tendsto (over the reals every scheme's quotient tends to the analytic derivative of any differentiable rate restriction as the step tends to 0).",
     "C19": " Round 7: one lineage simulator object serves all runs.",
     "C20": " Round 8: queues built on transposed and sliced backing arrays.",
 }
